@@ -165,6 +165,34 @@ std::string workload(CDNS::FilePreamble& shared_fp, int id, int nrec, uint64_t s
         } catch (std::exception&) { order += "EXC"; }
         res += "/aec:" + vh::digest(f2) + ":" + vh::digest(order);
     }
+    {   // NAMED outputs (the file-name writer: open '.part', stream buffer, flush/close/rename), one rotation, small pieces pending in the
+        // stream when the other threads run; each thread has its own names
+        const char* basedir = std::getenv("VERIF_TMP");
+        std::string base = std::string(basedir ? basedir : "/tmp") + "/cdnsthr-" + std::to_string(getpid()) + "-" + (yields ? "p" : "s") + std::to_string(id);
+        std::string sfx = comp == 0 ? "" : comp == 1 ? ".gz" : ".xz";
+        std::string n0 = base + "_a", n1 = base + "_b";
+        {
+            CDNS::CdnsExporter exp3(fp, n0, comp == 0 ? CDNS::CborOutputCompression::NO_COMPRESSION
+                                          : comp == 1 ? CDNS::CborOutputCompression::GZIP : CDNS::CborOutputCompression::XZ);
+            for (int j = 0; j < 6; j++) {
+                CDNS::GenericQueryResponse g;
+                g.client_port = static_cast<uint16_t>(rng.next());
+                g.transaction_id = static_cast<uint16_t>(id * 100 + j);
+                exp3.buffer_qr(g);
+                if (j % 2 == 1) exp3.write_block();          // small pieces reach the output stream one by one
+                if (yields && (yrng.next() & 1) == 0) sched_yield();
+                if (j == 3) exp3.rotate_output(n1, false);
+            }
+        }
+        std::string d3;
+        for (const std::string& n : {n0 + sfx, n1 + sfx}) {
+            std::ifstream f(n, std::ifstream::binary);
+            std::stringstream ss; ss << f.rdbuf();
+            d3 += vh::digest(ss.str()) + ".";
+            unlink(n.c_str());
+        }
+        res += "/nm:" + d3;
+    }
     if (comp == 0) {        // read back (uncompressed outputs)
         std::istringstream is(file);
         CDNS::CdnsReader reader(is);
